@@ -333,14 +333,18 @@ impl Eq for HeapEntry {}
 
 impl PartialEq for HeapEntry {
     fn eq(&self, other: &Self) -> bool {
-        self.row == other.row
+        self.cmp(other) == Ordering::Equal
     }
 }
 
 impl Ord for HeapEntry {
     fn cmp(&self, other: &Self) -> Ordering {
-        // Reverse comparison because BinaryHeap is a max-heap but we want min
+        // Reverse comparison because BinaryHeap is a max-heap but we want min.
+        // Rows with equal keys leave in the order of their runs (runs are numbered in
+        // arrival order, the in-memory rest last), so the merge is stable and the
+        // spilled sort returns exactly what the in-memory sort returns.
         compare_rows(&other.row, &self.row, &self.sort_keys)
+            .then_with(|| other.run_index.cmp(&self.run_index))
     }
 }
 
@@ -637,5 +641,36 @@ mod tests {
 
         // After drop, spilled bytes should be cleaned up
         // (The manager still exists, but files are deleted)
+    }
+
+    #[test]
+    fn test_external_sort_is_stable_across_runs() {
+        let (_temp_dir, manager) = create_manager();
+        let mut sort = ExternalSort::new(manager, 2, vec![SortKey::ascending(0)]);
+
+        // three runs and an in-memory rest, every key several times; the second column
+        // records the arrival order
+        sort.spill_sorted_run(vec![row(&[2, 2]), row(&[3, 1])])
+            .unwrap();
+        sort.spill_sorted_run(vec![row(&[1, 4]), row(&[3, 3])])
+            .unwrap();
+        sort.spill_sorted_run(vec![row(&[2, 6]), row(&[3, 5])])
+            .unwrap();
+        let result = sort.merge_all(vec![row(&[3, 8]), row(&[2, 7])]).unwrap();
+
+        let expected: Vec<Vec<Value>> = [
+            [1, 4],
+            [2, 2],
+            [2, 6],
+            [2, 7],
+            [3, 1],
+            [3, 3],
+            [3, 5],
+            [3, 8],
+        ]
+        .iter()
+        .map(|r| row(r))
+        .collect();
+        assert_eq!(result, expected);
     }
 }
